@@ -16,14 +16,14 @@ def def_program(draw):
         c = ["Alfa", "Bravo"][ci]
         kw = draw(st.sampled_from(["class", "class", "module"]))
         items = []
-        for k in range(draw(st.integers(2, 4))):
-            if kw == "class" and draw(st.integers(0, 4)) == 0:
+        for k in range(draw(st.integers(2, 5))):
+            if kw == "class" and draw(st.integers(0, 2)) == 0:
                 items.append({"vis": draw(st.sampled_from(["private", "protected", "public"]))})
             form = draw(st.sampled_from(["plain", "plain", "self", "endless", "multi", "sing"]))
             it = {"form": form, "name": "%s_m%d" % (c.lower(), k)}
-            if form == "sing" and draw(st.integers(0, 2)) == 0:
+            if form == "sing" and draw(st.integers(0, 1)) == 0:
                 # a visibility keyword *inside* the singleton body does apply to the class-side definition
-                it["inner_vis"] = draw(st.sampled_from(["private", "public"]))
+                it["inner_vis"] = draw(st.sampled_from(["private", "private", "protected", "public"]))
             items.append(it)
         classes.append({"kw": kw, "name": c, "items": items})
     return {"classes": classes}
